@@ -221,6 +221,8 @@ def chain_campaign(ctx, n):
     sets = sink_sets = join_sets = 0
     for idx, (t, (obs, handed, pubmid)) in enumerate(zip(trials, impl)):
         L = len(t['topo']['ups'])
+        for key, what in netfeed.send_oracle(pubmid)[:1]:
+            res.violations.append(Violation(key, what, {'feed': 'netchain', 'trial': t}))
         ns = sum(1 for hd in handed if hd[1] > 0); nk = sum(1 for hd in handed if hd[1] == L - 1)
         sets += ns; sink_sets += nk
         shaped = any(b.get('skip') or b.get('empty') or b.get('dnone') or b.get('defer') or b.get('lone') or b['kind'] not in ('src', 'pass') for b in t['topo']['behs'])
